@@ -35,6 +35,13 @@ pub enum CfgError {
     AssertionError,
 }
 
+/// The label an error about a set of labels is attached to: the smallest one,
+/// so that the location does not depend on the iteration order of the set.
+#[allow(clippy::unwrap_used)]
+fn first_label(labels: &HashSet<LabelStringToken>) -> &LabelStringToken {
+    labels.iter().min().unwrap()
+}
+
 trait SetListString {
     fn as_str_list(&self) -> String;
 }
@@ -101,7 +108,7 @@ impl DiagnosticLocation for CfgError {
             CfgError::MultipleLabelsForReturn(node, _)
             | CfgError::NoLabelForReturn(node)
             | CfgError::FunctionWithoutReturn(node) => node.file(),
-            CfgError::LabelsNotDefined(labels) => labels.iter().next().unwrap().file(),
+            CfgError::LabelsNotDefined(labels) => first_label(labels).file(),
             CfgError::DuplicateLabel(label) | CfgError::LabelWithoutInstruction(label) => {
                 label.file()
             }
@@ -114,7 +121,7 @@ impl DiagnosticLocation for CfgError {
             CfgError::MultipleLabelsForReturn(node, _)
             | CfgError::NoLabelForReturn(node)
             | CfgError::FunctionWithoutReturn(node) => node.range(),
-            CfgError::LabelsNotDefined(labels) => labels.iter().next().unwrap().range(),
+            CfgError::LabelsNotDefined(labels) => first_label(labels).range(),
             CfgError::DuplicateLabel(label) | CfgError::LabelWithoutInstruction(label) => {
                 label.range()
             }
@@ -127,7 +134,7 @@ impl DiagnosticLocation for CfgError {
             CfgError::MultipleLabelsForReturn(node, _)
             | CfgError::NoLabelForReturn(node)
             | CfgError::FunctionWithoutReturn(node) => node.raw_text(),
-            CfgError::LabelsNotDefined(labels) => labels.iter().next().unwrap().raw_text(),
+            CfgError::LabelsNotDefined(labels) => first_label(labels).raw_text(),
             CfgError::DuplicateLabel(label) | CfgError::LabelWithoutInstruction(label) => {
                 label.raw_text()
             }
